@@ -1,5 +1,22 @@
-(* STUB: Spec layer for facs -- to be written *)
-From Coq Require Import NArith List.
-From ACPI Require Import Lib.Bytes Lib.Sx Spec.Layout.
+(* Spec layer for the FACS (ACPI 6.5 5.2.10), written from SPEC_NOTES.md A.1 (64 bytes, no standard header, no checksum).
+   Case vocabulary (shared with the harness, component 29):
+     ctor  ()                        FACS::new()
+     ops   none (observations only) *)
+From Coq Require Import NArith List Bool.
+From ACPI Require Import Lib.Bytes Lib.Sx Spec.Layout Spec.FixedS.
 Import ListNotations.
-Definition facs_spec : tspec := null_spec.
+Open Scope N_scope.
+
+Definition facs_ref (ctor : sx) : option (list N) :=
+  match ctor with
+  | SL [] =>
+      lay 64 (LB 0 [70; 65; 67; 83] ++                 (* "FACS" *)
+              [L 4 4 64;                               (* Length *)
+               L 8 4 0; L 12 4 0; L 16 4 0; L 20 4 0;  (* HardwareSignature FirmwareWakingVector GlobalLock Flags *)
+               L 24 8 0;                               (* XFirmwareWakingVector *)
+               L 32 1 1;                               (* Version (crate) *)
+               L 33 3 0; L 36 4 0; L 40 24 0])         (* reserved, OSPMFlags, reserved *)
+  | _ => None
+  end.
+
+Definition facs_spec : tspec := fixed_spec (ctor_only facs_ref).
